@@ -1,6 +1,47 @@
-/- Helper lemmas for the model of `logic.py`. -/
+/- Helper lemmas for the model of `logic.py`: bridging the mutual list
+   recursions to `List.all`/`List.any`/membership, and literal values. -/
 import SPProofs.Logic.Sem
 
 namespace SPModel
+open Formula
+
+theorem evalAll_eq_all (τ : Assign) (l : List Formula) : evalAll τ l = l.all (eval τ) := by
+  induction l with
+  | nil => simp [evalAll]
+  | cons f fs ih => simp [evalAll, ih]
+
+theorem evalAny_eq_any (τ : Assign) (l : List Formula) : evalAny τ l = l.any (eval τ) := by
+  induction l with
+  | nil => simp [evalAny]
+  | cons f fs ih => simp [evalAny, ih]
+
+theorem WFs_iff (n : Nat) (l : List Formula) : Formula.WFs n l ↔ ∀ g ∈ l, g.WF n := by
+  induction l with
+  | nil => simp [Formula.WFs]
+  | cons f fs ih => simp [Formula.WFs, ih]
+
+theorem NoImps_iff (l : List Formula) : Formula.NoImps l ↔ ∀ g ∈ l, g.NoImp := by
+  induction l with
+  | nil => simp [Formula.NoImps]
+  | cons f fs ih => simp [Formula.NoImps, ih]
+
+theorem Shapes_iff (l : List Formula) : Formula.Shapes l ↔ ∀ g ∈ l, g.Shape := by
+  induction l with
+  | nil => simp [Formula.Shapes]
+  | cons f fs ih => simp [Formula.Shapes, ih]
+
+theorem mem_varsList (v : Nat) (l : List Formula) :
+    v ∈ Formula.varsList l ↔ ∃ g ∈ l, v ∈ g.vars := by
+  induction l with
+  | nil => simp [Formula.varsList]
+  | cons f fs ih => simp [Formula.varsList, ih]
+
+theorem litVal_neg (τ : Assign) (v : Int) (hv : v ≠ 0) : litVal τ (-v) = !litVal τ v := by
+  unfold litVal
+  by_cases h : 0 < v
+  · have : ¬ (0 < -v) := by omega
+    simp [h]; omega
+  · have : 0 < -v := by omega
+    simp [h]; omega
 
 end SPModel
